@@ -9,7 +9,7 @@ ASSUMPTIONS = [
     "the specification table (harness/C17_h.py: TAGS, Spec) is written from docs/specifications/lease.rst, file-encoding.rst, mutable.rst, dirnodes.rst; tags that the "
     "documents do not spell out are pinned literals (compatibility contract); the table is validated at import with the real SHA-256 against the 24 known answers of "
     "test_hashutil.py and the 4 vectors of docs/specifications/derive_renewal_secret.py",
-    "arguments are concrete tokens of the documented lengths (two distinct ones per argument, plus the empty string), not symbolic bytes: netstring's %-formatting realises symbolic "
+    "arguments are concrete tokens of the documented lengths (two distinct ones per argument - one of the 32-byte secrets begins and ends with ASCII whitespace -, plus the empty string), not symbolic bytes: netstring's %-formatting realises symbolic "
     "bytes, so byte contents are structural here; k, n, segment size are symbolic ints within small bounds (they are formatted into the convergence tag)",
     "RSA DER serialisation and AES are token functions in derive_mutable_keys / _encrypt_rw_uri; Tahoe2ServerSelector.get_shareholders (inlineCallbacks) is not driven: its two "
     "file-secret lines are re-executed by the harness and _create_trackers is run for real",
@@ -35,4 +35,7 @@ OBLIGATIONS = [
         bounds={"quick": {"n_max": 2, "seg_max": 1}, "thorough": {"n_max": 4, "seg_max": 6}},
         desc="CHKFileURI storage index; SecretHolder client secrets; Tahoe2ServerSelector._create_trackers per-server renewal/cancel secrets; Checker add-lease secrets; "
              "FileHandle convergent encryption key (tag + netstring(secret) + netstring('k,n,segsize'), contents) — all equal the specified chains"),
+    chx("dir_child_keys", "C17_h", "h_dir_child_keys", timeout=T,
+        desc="the same child (same write cap, hence same salt) linked from two directories with different writekeys, entries decrypted in 4 orders (A,B / B,A / A,B,A / B,B,A): "
+             "every _decrypt_rwcapdata uses the key H(tag, salt, that directory's writekey) and recovers the child's write cap; _encrypt_rw_uri's salt is H(tag, child write cap)"),
 ]
